@@ -1184,6 +1184,40 @@ REGISTRY['C16'] = check_C16
 
 # ------------------------------------------------------------------ C18: secure erase
 import eraseshape_tr
+def c18_dead_buffer_clients(rep, scr, tier):
+    """C18(c), the search for a failing input at machine level: a caller whose buffer is dead right after the erase (it is freed),
+    built together with the working tree's sources at -O2 without and with link-time optimisation (thorough: also -O3); the freed
+    block is inspected out of band.  A byte of the secret that survives is the replay."""
+    srcs = [l.split()[0] for l in open(scr.dir + '/O1/list.txt')] if os.path.exists(scr.dir + '/O1/list.txt') else []
+    if not srcs:
+        import glob
+        srcs = [f for f in glob.glob(vlib.REPO + '/src/*.c') + glob.glob(vlib.REPO + '/src/*/*.c') if '/slkm/' not in f and not f.endswith(('wcsstr.c', 'tmpnam_s.c'))]
+    variants = [('O2', ['-O2']), ('O2-lto', ['-O2', '-flto'])] + ([('O3-lto', ['-O3', '-flto']), ('O1-lto', ['-O1', '-flto'])] if tier == 'thorough' else [])
+    for vname, flags in variants:
+        od = '%s/client_%s' % (scr.dir, vname); os.makedirs(od, exist_ok=True)
+        lst = od + '/list.txt'
+        with open(lst, 'w') as f:
+            for s_ in srcs: f.write('%s %s/%s_%s.o\n' % (s_, od, os.path.basename(os.path.dirname(s_)), os.path.basename(s_)[:-2]))
+        cf = ' '.join(flags) + ' -w -DHAVE_CONFIG_H -I%s/include -I%s -I%s/src' % (vlib.REPO, vlib.REPO, vlib.REPO)
+        rc, o, e = vlib.sh(['bash', '-c', "xargs -P 16 -L 1 sh -c 'gcc -c %s \"$0\" -o \"$1\"' < %s" % (cf, lst)], timeout=900)
+        rc2, o2, e2 = vlib.sh(['bash', '-c', 'gcc %s -w -I%s/include -I%s %s/erase_client.c %s/*.o -o %s/client -Wl,--wrap=free -lm' % (' '.join(flags), vlib.REPO, vlib.REPO, vlib.HARN, od, od)], timeout=900)
+        if rc2 != 0:
+            rep.violation('C18 client (%s) does not build: %s' % (vname, (e2 or '')[-400:]), {'key': ('client-build', vname), 'property': 'C18', 'no_failing_input': True}); continue
+        rc3, o3, e3 = vlib.sh([od + '/client'], timeout=60)
+        rep.evals += 7; rep.count('dead-buffer client/%s' % vname)
+        for line in (o3 or '').split('\n'):
+            f = line.split()
+            if len(f) >= 2 and f[1] == 'ok': rep.nontrivial.add(('client', vname, f[0], 'ok'))
+            elif len(f) >= 5 and f[1] == 'byte':
+                fn = f[0]; rep.nontrivial.add(('client', vname, fn, 'survives'))
+                kid = next((k['id'] for k in rep.known if k.get('client_variant') and fn in k.get('function', '').split(',') and vname in k['client_variant'].split(',')), None)
+                if kid: rep.known_hits[kid] = rep.known_hits.get(kid, 0) + 1
+                else:
+                    rep.violation('%s: the erased bytes survive in a buffer that is freed right after the call when caller and library are built with %s (%s)' % (fn, ' '.join(flags), line.strip()),
+                                  {'key': ('client', fn, vname), 'property': 'C18', 'function': fn, 'failure': 'erase-elided', 'build': 'gcc %s (all of src/ + harness/erase_client.c, -Wl,--wrap=free)' % ' '.join(flags),
+                                   'how': 'harness/erase_client.c: malloc(64), fill with 0x5a through a volatile pointer, %s(...48 bytes...), free(); __wrap_free copies the block before releasing it' % fn, 'client_output': line.strip()})
+        if rc3 not in (0, 1): rep.violation('C18 client (%s) crashed (exit %s)' % (vname, rc3), {'key': ('client-crash', vname), 'property': 'C18', 'no_failing_input': True})
+
 def check_C18(rep, scr, tier, seed):
     import random
     rng = random.Random(seed)
@@ -1256,6 +1290,7 @@ def check_C18(rep, scr, tier, seed):
     kf_shape = [k for k in rep.known if k.get('predicate') == 'kf_strzero_unprotected']
     if kf_shape: rep.known_hits[kf_shape[0]['id']] = 1
     if errors: rep.violation('erase shape translator cannot process the current source: %s' % errors, {'key': 'translator', 'property': 'C18', 'no_failing_input': True, 'broken': 'translator eraseshape / theorem C18_shapes_protected'})
+    c18_dead_buffer_clients(rep, scr, tier)
     report_proofs(rep, pr, 'C18')
     report_mismatches(rep, 'T1 (fill exactness)')
     rep.trusted = TRUSTED_COMMON + ['translator eraseshape (regular expressions over the preprocessed sources): volatile-qualified pointer declarations, store statements, barrier expansions',
